@@ -122,12 +122,20 @@ def all_verdicts(tier="quick"):
     key = tier
     if key in _CACHE:
         return _CACHE[key]
-    res = []
-    for op, specs in configs(tier):
-        vs = sc.analyse(SIMPLIFIER, op, specs)
-        res.append((op, specs, vs))
+    from ..common import parallel_map
+    cfgs = configs(tier)
+    outs = parallel_map(_one, cfgs)
+    res = [(op, specs, vs) for (op, specs), vs in zip(cfgs, outs)]
     _CACHE[key] = res
     return res
+
+
+def _one(cfg):
+    op, specs = cfg
+    vs = sc.analyse(SIMPLIFIER, op, specs)
+    for v in vs:
+        v.detail = str(v.detail) if not isinstance(v.detail, str) else v.detail
+    return vs
 
 
 def run(ctx):
